@@ -611,7 +611,7 @@ def _describe(v, depth=0):
 # ---- kept for the differential check -------------------------------------------------------------
 def snapshot_objects(conc):
     snap = {}
-    for oid, o in conc.objs.items():
+    for oid, o in list(conc.objs.items()):
         ty = conc.types.get(oid)
         if isinstance(ty, TAbs) and getattr(ty, "observe", None) is not None:
             snap[oid] = dict(ty.observe(o))
